@@ -103,7 +103,11 @@ def run_program(args):
     inp = dict(ref_inp)
     uses = E.ENTRIES[entry]['uses']
     if rep == 'nddata':
-        inp['data'] = NDData(base['data'], uncertainty=StdDevUncertainty(base['error']), mask=base['mask'])
+        unc = StdDevUncertainty(base['error'])
+        if entry == 'psf_photometry':      # the other uncertainty flavours of NDData (documented: converted to standard deviations)
+            from astropy.nddata import InverseVariance, VarianceUncertainty
+            unc = VarianceUncertainty(base['error'] ** 2) if pid % 2 else InverseVariance(1.0 / base['error'] ** 2)
+        inp['data'] = NDData(base['data'], uncertainty=unc, mask=base['mask'])
         inp.pop('error', None); inp.pop('mask', None)
         inp['error'] = None; inp['mask'] = None
     else:
